@@ -3,13 +3,17 @@ CFG = {
  'go': {'bitmap.FromStr32': 'bitmap.FromStr32',
         'bmtree.PathOf': 'bmtree.PathOf',
         'bmtree.PathOf/str': 'bmtree.PathStr(bmtree.PathOf(...))',
-        'bmtree.PathsOf': 'bmtree.PathsOf'},
- 'rule': 'cases = corpus + exhaustive (all strings of length 0..2 (thorough 0..3) over {00,80,ff,01,a5} x all from in '
-         '[0, 8*len+9] and 56 x all widths 0..32) + sampled strings of length 3..6 over the same alphabet (all from <= 56, '
+        'bmtree.PathsOf': 'bmtree.PathsOf',
+        'bitmap.FromStr32/split': 'bitmap.FromStr32 (two consecutive windows and their union)',
+        'bmtree.PathOf/fields': 'bmtree.PathLen/PathHeight/PathBits/PathMask(bmtree.PathOf(...))',
+        'bmtree.PathsOf/sorted': 'bmtree.PathsOf(sorted keys, dedup=true)',
+        'bmtree.PathsOf/held': 'bmtree.PathsOf (two calls, both results read after the second)'},
+ 'rule': 'cases = corpus + held pairs of PathsOf results over ascending sizes (run first) + exhaustive (all strings of length 0..2 (thorough 0..3) over {00,80,ff,01,a5} x all from in '
+         '[0, 8*len+9] and 56 x all widths 0..32; all strings of length 5 x unaligned starts x width 32 (five-byte windows; thorough: from 0..8 x widths 24..32 and all strings of length 4 x all from x all widths)) + sampled strings of length 3..6 over the same alphabet (all from <= 56, '
          'boundary widths) + random strings of length 0..40 over the shared byte alphabets with starts before / at / after '
          'the end of the string, aligned and unaligned, widths aimed at byte-span boundaries and at the end of the string '
          '+ far starts up to 2^31-40 + PathsOf key lists (sorted with shared prefixes, unsorted with non-adjacent '
-         'duplicates, first path 0 / all-ones, both dedup flags); a FromStr32/PathOf case is non-trivial when at least one '
+         'duplicates, first path 0 / all-ones, both dedup flags) + key sets sorted in string order with a common from-bit prefix (PathsOf/sorted, judged by the relational checker: strictly increasing and the same set as the keys\' paths) + consecutive windows [from,from+w1), [from+w1,from+w1+w2) against their union (FromStr32/split: split points at byte boundaries, at the string end, at 0/1/w-1/w); a FromStr32/PathOf case is non-trivial when at least one '
          'bit is taken and the taken bits are not all equal; a PathsOf case when there are >= 2 keys and h > 0; shape key = '
          '(bytes touched inside the string 1..5, from mod 8, window cut by the string end or not, width class, window '
          'ends in the last byte or not) resp. (dedup, adjacent duplicates, non-adjacent duplicates, first path class, '
